@@ -258,13 +258,17 @@ package aggregator
 //@
 //@ func (a *Aggregator) AddOrCreate(key string, ts uint32, quantized uint, value float64)
 //@   property C10
+//@   logged
 //@   requires aggInv(a) && rangeTracker != nil && !rangeTracker.Mutex.held && numTooOld != nil && a.clock >= a.Wait && a.clock < 18446744073709551616
 //@   let open := quantized > a.clock - a.Wait
-//@   modifies *
+//@   modifies a.tsList, allof("[]uint"), allof("aggregator.RangeTracker.max"), allof("aggregator.RangeTracker.min"), allof("aggregator.aggregation.count"), allof("aggregator.aggregation.state"), allof("ghost:*.tss"), allof("ghost:*.vals"), allof("ghost:metrics.Counter.count"), rangeTracker.Mutex.held
+//@   modifies allof("map:map[string]aggregator.Processor#dom"), allof("map:map[string]aggregator.Processor#len"), allof("map:map[string]aggregator.Processor#val#ref"), allof("map:map[string]aggregator.Processor#val#tag"), allof("map:map[uint]*aggregator.aggregation#dom"), allof("map:map[uint]*aggregator.aggregation#len"), allof("map:map[uint]*aggregator.aggregation#val")
+//@   modifies allof("aggregator.Avg.sum"), allof("aggregator.Avg.cnt"), allof("aggregator.Count.cnt"), allof("aggregator.Delta.max"), allof("aggregator.Delta.min"), allof("aggregator.Derive.oldestTs"), allof("aggregator.Derive.newestTs"), allof("aggregator.Derive.oldestVal"), allof("aggregator.Derive.newestVal"), allof("aggregator.Last.val"), allof("aggregator.Max.val"), allof("aggregator.Min.val"), allof("aggregator.Sum.sum")
 //@   ensures[inv_objs]     invObjs(a)
 //@   ensures[inv_distinct] invDistinct(a)
 //@   ensures[inv_sorted]   invSorted(a)
 //@   ensures[inv_listed]   invListed(a)
+//@   ensures[unlocked]     !rangeTracker.Mutex.held
 //@   // not yet proved preserved on the path that re-sorts the list (assumed as part of aggInv): invNoDup, invAll, invProcs
 //@   ensures[existing] old(has2(a, quantized, key)) ==> has2(a, quantized, key) && proc2(a, quantized, key) == old(proc2(a, quantized, key))
 //@        && contributed(proc2(a, quantized, key), value, ts) && numTooOld.count == old(numTooOld.count)
@@ -283,14 +287,25 @@ package aggregator
 //@   trusted
 //@ spec flushCalls(p Processor) := callsOf("aggregator.Processor.Flush", p.ref)
 //@
+//@ // lineTs: the timestamp an emitted line carries (its last field); ascFrom(l, b): the lines appended to b to get l
+//@ // carry non-decreasing timestamps
+//@ smt (declare-fun lineTs (Elem) Int)
+//@ smt (declare-fun ascFrom (Log Log) Bool)
+//@ axiom asc_refl: (assert (forall ((b Log)) (! (ascFrom b b) :pattern ((ascFrom b b)))))
+//@ axiom asc_snoc: (assert (forall ((s Log) (e Elem) (b Log)) (! (= (ascFrom (lsnoc s e) b) (or (= (lsnoc s e) b) (and (ascFrom s b) (or (= s b) (<= (lineTs (llast s)) (lineTs e)))))) :pattern ((ascFrom (lsnoc s e) b)))))
 //@ // Flush(cutoff): every bucket that starts at or before the cutoff is closed: each of its processors is flushed
 //@ // exactly once and the bucket is removed; buckets after the cutoff are untouched; the timestamp list keeps
 //@ // exactly the open buckets, in order; nothing but the aggregator's out channel is written to.
 //@ func (a *Aggregator) Flush(cutoff uint)
 //@   property C10,C11
+//@   logged
 //@   requires aggInv(a) && a.out != nil && !closed(a.out) && a.numFlushed != nil && flushWaiting != nil && flushes != nil
 //@   modifies a.tsList, a.tsList[..], a.aggregations[..], sent(a.out), allof("ghost:metrics.Counter.count"), allof("calls:aggregator.Processor.Flush")
+//@   define forall k bytes, v f64, t int, r int :: lineTs(eB(sprintf("%s %f %d", k, v, t), r)) == t
+//@   define forall k bytes, n bytes, v f64, t int, r int :: lineTs(eB(sprintf("%s.%s %f %d", k, n, v, t), r)) == t
+//@   ensures[ascending_timestamps; C10] ascFrom(sent(a.out), old(sent(a.out))) && (sent(a.out) != old(sent(a.out)) ==> lineTs(llast(sent(a.out))) <= cutoff)
 //@   ensures[inv_objs]     invObjs(a)
+//@   ensures[inv_distinct] invDistinct(a)
 //@   ensures[inv_sorted]   invSorted(a)
 //@   ensures[inv_listed]   invListed(a)
 //@   ensures[closed_buckets_removed; C10] forall t int :: 0 <= t && t <= cutoff ==> !has(a.aggregations, t)
@@ -303,18 +318,56 @@ package aggregator
 //@   loop 1:
 //@     invariant[idx] 0 <= #i && #i <= len(#s) && #s == old(a.tsList) && a.tsList == old(a.tsList) && pos == #i - 1 && (forall j int :: 0 <= j && j < len(a.tsList) ==> a.tsList[j] == old(a.tsList[j]))
 //@     invariant[objs] invObjs(a) && a.out == old(a.out) && a.numFlushed == old(a.numFlushed) && a.aggregations == old(a.aggregations)
+//@     invariant[ascending] ascFrom(sent(a.out), old(sent(a.out))) && (sent(a.out) != old(sent(a.out)) ==> #i >= 1 && lineTs(llast(sent(a.out))) <= a.tsList[#i - 1])
 //@     invariant[closed_so_far] forall j int :: 0 <= j && j < #i ==> a.tsList[j] <= cutoff && !has(a.aggregations, a.tsList[j])
 //@     invariant[rest_untouched] forall t int :: (forall j int :: 0 <= j && j < #i ==> a.tsList[j] != t) ==> has(a.aggregations, t) == old(has(a.aggregations, t)) && (has(a.aggregations, t) ==> a.aggregations[t] == old(a.aggregations[t]))
 //@     invariant[flushed_so_far] forall t int, k bytes, j int :: old(has2(a, t, k)) && 0 <= j && j < #i && a.tsList[j] == t ==> flushCalls(old(proc2(a, t, k))) == old(flushCalls(proc2(a, t, k))) ++ eNil
 //@     invariant[not_flushed_yet] forall t int, k bytes :: old(has2(a, t, k)) && (forall j int :: 0 <= j && j < #i ==> a.tsList[j] != t) ==> flushCalls(old(proc2(a, t, k))) == old(flushCalls(proc2(a, t, k)))
 //@   loop 2:
 //@     invariant[same] a.tsList == old(a.tsList) && a.aggregations == old(a.aggregations) && a.out == old(a.out) && a.numFlushed == old(a.numFlushed) && agg == old(a.aggregations[now(ts)]) && old(has(a.aggregations, now(ts)))
+//@     invariant[ascending2] ascFrom(sent(a.out), old(sent(a.out))) && (sent(a.out) != old(sent(a.out)) ==> lineTs(llast(sent(a.out))) <= ts) && ts <= cutoff
 //@     invariant[bucket_flushing] forall k bytes :: old(has2(a, now(ts), k)) ==> flushCalls(old(proc2(a, now(ts), k))) == (#visited[k] ? old(flushCalls(proc2(a, now(ts), k))) ++ eNil : old(flushCalls(proc2(a, now(ts), k))))
 //@     invariant[position] 0 <= i && i < len(a.tsList) && a.tsList[i] == ts && (forall j int :: 0 <= j && j < len(a.tsList) ==> a.tsList[j] == old(a.tsList[j]))
 //@     invariant[earlier_buckets_flushed] forall t int, k bytes, j int :: old(has2(a, t, k)) && 0 <= j && j < i && a.tsList[j] == t ==> flushCalls(old(proc2(a, t, k))) == old(flushCalls(proc2(a, t, k))) ++ eNil
 //@     invariant[later_buckets_not_flushed] forall t int, k bytes :: old(has2(a, t, k)) && t != ts && (forall j int :: 0 <= j && j < i ==> a.tsList[j] != t) ==> flushCalls(old(proc2(a, t, k))) == old(flushCalls(proc2(a, t, k)))
 //@   loop 3:
 //@     invariant[same3] 0 <= #i && #i <= len(#s) && a.out == old(a.out) && a.numFlushed == old(a.numFlushed)
+//@     invariant[ascending3] ascFrom(sent(a.out), old(sent(a.out))) && (sent(a.out) != old(sent(a.out)) ==> lineTs(llast(sent(a.out))) <= ts) && ts <= cutoff
+
+// ---------------------------------------------------------------- aggregator.go: the event loop (C10, C03)
+//@ spec runWf(a *Aggregator) bool := aggWf(a) && a.Interval > 0 && a.Wait <= 9223372036 && a.tick != nil && a.out != nil && !closed(a.out) && a.numIn != nil && a.numFlushed != nil
+//@      && a.snapReq != nil && a.snapResp != nil && a.shutdown != nil && rangeTracker != nil && !rangeTracker.Mutex.held && numTooOld != nil && flushWaiting != nil && flushes != nil
+//@ spec invProved(a *Aggregator) bool := invObjs(a) && invDistinct(a) && invSorted(a) && invListed(a)
+//@
+//@ chan_invariant aggregator.Aggregator.in(m msg) := len(m.buf) >= 1
+//@ // run: a matching point goes to the bucket that starts at its timestamp rounded down to the interval; a tick
+//@ // closes the buckets whose wait period has elapsed at the tick's time; cache expiry only deletes entries
+//@ func (a *Aggregator) run()
+//@   property C10,C03
+//@   requires runWf(a) && aggInv(a)
+//@   objinv cacheOK(a)
+//@   modifies *
+//@   loop 1:
+//@     invariant[wf] runWf(a)
+//@     invariant[objs] invObjs(a)
+//@     invariant[distinct] invDistinct(a)
+//@     invariant[sorted] invSorted(a)
+//@     invariant[listed] invListed(a)
+//@     invariant[cache_coherent; C03] cacheOK(a)
+//@     assumed_invariant[bucket_index] invNoDup(a) && invAll(a) && invProcs(a)
+//@     assumed_invariant[clock] a.clock >= a.Wait && a.clock < 18446744073709551616
+//@     assumed_invariant[channel_ownership] !closed(a.in) && !closed(a.out) && !closed(a.snapResp) && !closed(a.tick)
+//@   loop 2:
+//@     invariant[wf2] invProved(a)
+//@     invariant[cache_only_shrinks; C03] cacheOK(a)
+//@   // ticks carry wall-clock times: later than the wait period after the epoch
+//@   assume_recv "<-a.tick": unixOf($recv.wall, $recv.ext) >= a.Wait && unixOf($recv.wall, $recv.ext) < 9223372036854775808
+//@   branch "<-a.in":
+//@     ensures[bucket_start_is_rounded_down; C10] calls(a.AddOrCreate) == old(calls(a.AddOrCreate))
+//@        || (exists key bytes :: calls(a.AddOrCreate) == old(calls(a.AddOrCreate)) ++ argsOf(key, msg.ts, msg.ts - msg.ts % a.Interval, msg.val))
+//@     ensures[no_flush_on_a_point; C10] calls(a.Flush) == old(calls(a.Flush))
+//@   branch "<-a.tick":
+//@     ensures[tick_closes_elapsed_buckets; C10] calls(a.Flush) == old(calls(a.Flush)) ++ argsOf(unixOf(now.wall, now.ext) - a.Wait) && calls(a.AddOrCreate) == old(calls(a.AddOrCreate))
 
 // ---------------------------------------------------------------- constructors (C14): parameters that cannot work are refused
 //@ func (a *Aggregator) setKey() string
